@@ -82,6 +82,10 @@ func projGen1(r *rand.Rand) *project {
 	p.Includes["inc2"] = "deltas\nechos\n"
 	p.Includes["nested"] = "##!> include inc2\nnestedword\n"
 	p.Excludes["exc1"] = "bravoinc\n"
+	// two exclude files that define the same name with different values and so exclude different entries of the same
+	// include file (used by two assembly files of a third of the trees)
+	p.Excludes["excpick1"] = "##!> define pick bravoinc\n{{pick}}\n"
+	p.Excludes["excpick2"] = "##!> define pick alphainc\n{{pick}}\ncharlieinc\n"
 	prefixes := []string{"932", "941", "942", "920", "933"}
 	r.Shuffle(len(prefixes), func(i, j int) { prefixes[i], prefixes[j] = prefixes[j], prefixes[i] })
 	nf := 1 + r.Intn(3)
@@ -126,6 +130,11 @@ func projGen1(r *rand.Rand) *project {
 			rc.NoFinal = core.Chance(r, 2, 3)
 		}
 		p.Files = append(p.Files, rc)
+	}
+	if ts := p.targets(); len(ts) >= 2 && core.Chance(r, 1, 3) {
+		a, b := ts[0], ts[len(ts)-1]
+		a.File.Sources[a.Key] = "##!> include-except inc1 excpick1\n" + core.Pick(r, "", "ownword\n")
+		b.File.Sources[b.Key] = "##!> include-except inc1 excpick2\n" + core.Pick(r, "", "otherword\n")
 	}
 	// test files
 	for _, f := range p.Files {
